@@ -11,6 +11,7 @@ Manager ==
 Generator ==
        { O("SetMax", l, 0) : l \in {2, 4, 8} }
   \cup { O("Retire", s, same) : s \in 0..3, same \in {0, 1} } \cup { O("Retire", 9, 0) }
+  \cup { O("Packet", s, 0) : s \in {0, 1, 2, 9} }
   \cup { O("HandshakeDone", 30, 0), O("Tick", 10, 0), O("Tick", 100, 0), O("Sweep", 0, 0),
          O("Close", 0, 50), O("Close", 1, 50), O("Close", 2, 50) }
 Alphabet == IF Tier = "manager" THEN Manager ELSE Generator
